@@ -22,15 +22,30 @@ type schedReader struct {
 	failAfter   int // -1: never
 	stutter     bool // every other call reports "no progress": (0, nil), as io.Reader allows
 	idle        bool
+	tempFails   int // > 0: the failure is a tempError, reported that many times, then the stream goes on
 }
 
 var errInjected = errors.New("injected stream failure")
+
+// tempError is what a connection with a read deadline reports: it says of itself that it is
+// temporary.  The decoder is not told that lost bytes will be re-sent: a failure is a failure.
+type tempError struct{}
+
+func (tempError) Error() string   { return "injected temporary failure" }
+func (tempError) Temporary() bool { return true }
+func (tempError) Timeout() bool   { return true }
 
 func (r *schedReader) Read(p []byte) (int, error) {
 	if len(p) == 0 {
 		return 0, nil
 	}
 	if r.failAfter == 0 {
+		if r.tempFails > 0 {
+			if r.tempFails--; r.tempFails == 0 {
+				r.failAfter = -1
+			}
+			return 0, tempError{}
+		}
 		return 0, errInjected
 	}
 	if r.stutter {
@@ -506,6 +521,8 @@ func TestC13(t *testing.T) {
 				}
 				r := &schedReader{data: append([]byte{}, data...), failAfter: p}
 				out.emit("fail-"+kind, "c13r", []string{kind, ty.Sexp(), hexBytes(data), hx(uint64(p))}, decode(r))
+				rt := &schedReader{data: append([]byte{}, data...), failAfter: p, tempFails: 1 + p%3}
+				out.emit("failT-"+kind, "c13r", []string{kind, ty.Sexp(), hexBytes(data), hx(uint64(p))}, decode(rt))
 				r2 := &schedReader{data: append([]byte{}, data[:p]...), failAfter: -1, eofWithData: p%2 == 0}
 				out.emit("short-"+kind, "c13r", []string{kind, ty.Sexp(), hexBytes(data), hx(uint64(p))}, decode(r2))
 				if kind == "flat" {
